@@ -270,6 +270,7 @@ type logEntry struct {
 	text string
 	def  string // symbol defined by this entry ("" for a plain assumption)
 	syms []string
+	obl  bool // the entry is an obligation assumed after being stated (ignored by vacuity covers)
 }
 
 type Obligation struct {
@@ -429,7 +430,11 @@ func (c *Ctx) Oblige(name, kind, pos, clause string, reach, prop Term) *Obligati
 	o := &Obligation{Unit: c.Unit, Name: name, Kind: kind, Pos: pos, Clause: clause,
 		logLen: len(c.log), goal: And(reach, Not(prop)), Inputs: c.Inputs}
 	c.Obls = append(c.Obls, o)
+	n := len(c.log)
 	c.Assume(Implies(reach, prop))
+	for i := n; i < len(c.log); i++ {
+		c.log[i].obl = true
+	}
 	return o
 }
 
@@ -517,6 +522,10 @@ func (c *Ctx) query(o *Obligation, withModel bool, dropQuant bool) string {
 	// definitions are kept when the symbol they define is used.
 	for i := 0; i < n; i++ {
 		if c.log[i].def == "" {
+			if o.Vacuity && c.log[i].obl {
+				// a reachability check must not lean on obligations that may themselves fail
+				continue
+			}
 			include[i] = true
 			for _, s := range c.log[i].syms {
 				rel[s] = true
